@@ -53,6 +53,13 @@ var curatedPatterns = []string{
 	`xxx0|abcd|xxx2|xxx3|xxx4|xxx5|xxx6|xxx7|abc`, `ab|abc|abcd|abcde`, `abcde|abcd|abc|ab`, `(?i)foo|bar`, `(?i)abc`, `(?i)a|b`,
 	`^(\d+|UUID|hex32)`, `^(foo|bar|qux)`, `^(a|b|c)x`, `^(?:ab|cd)+`, `^(\w+|-)`, `^([a-z]+|[0-9]+)$`,
 	`aa|ab|ac|ad|ae|af|ag|ah|ai|aj|ak|al|am|an|ao|ap|aq|ar|as|at|au|av|aw|ax|ay|az|ba|bb|bc|bd|be|bf|bg|bh|bi|bj`,
+	// literal alternations next to assertions (prefilter completeness must be downgraded)
+	`(foo|bar)\B`, `(foo|bar)\b`, `\B(foo|bar)`, `\b(foo|bar)\b`, `(?m)^(?:GET|PUT|POST)\B`, `(?m)^(foo|bar)$`, `(foo|bar)$`, `^(foo|bar)\B`, `(?:abc|abd)\B`,
+	`foo\B`, `\Bfoo`, `(?m)(foo|bar)$`, `(foo|bar)\z`, `\A(foo|bar)`,
+	// suffix / inner literals that overlap themselves
+	`\w+ana`, `[a-z]+aa`, `[0-9b]+aba`, `\w+abab`, `.*ana`, `.+aa`, `[a-z]*anan`, `\w+ana\w*`, `x\w+aba`, `[A-Z][a-z.]+\.(txt|log|md)`, `[A-Z][a-z.]+\.txt`,
+	// 33..64 literals of >= 3 bytes (fat multi-literal prefilter), alone and followed by something
+	c40Words, c40Words + `\d+`, `(?:` + c40Words + `)x`,
 	// captures
 	`(a)(b)`, `(a)|(b)`, `(a*)(a*)`, `(a*)(a+)`, `(a+)(a*)`, `(a*?)(a*)`, `((a)|(b))*`, `(a|b)*`, `(?P<x>a)(?P<y>b)?`, `(a)?b`, `(a)*b`, `(a|(b))+`, `((a))`, `()`, `(|a)`, `(a|)`,
 	`(\w+)\s(\w+)`, `(\d+)-(\d+)`, `^(\w+)@(\w+)\.(\w+)$`, `(a+)(b+)?(c+)?`, `(?:(a)|b)*`, `(a)(?:b)(c)`, `(x)?(y)?(z)?`,
@@ -68,6 +75,12 @@ var curatedPatterns = []string{
 	// escaped / special
 	`\.`, `\\`, `\$`, `\^`, `\[`, `\(`, `a\|b`, `\Qa.b\E`, `\Q*\E+`, `[\]]`, `[-a]`, `[a-]`, `[\^a]`, `\pN`, `\t\n`, `\x41`, `\101`, `\z`, `\A`,
 }
+
+// forty keywords, first letters spread over the alphabet so that every prefilter bucket is used
+const c40Words = `alpha|bravo|charlie|delta|echo|foxtrot|golf|hotel|india|juliet|kilo|lima|mike|november|oscar|papa|quebec|romeo|sierra|tango|uniform|victor|whiskey|xray|yankee|zulu|apple|banana|cherry|grape|lemon|mango|orange|peach|pear|plum|quince|raisin|tomato|walnut`
+
+// forty literals whose bucket (index mod 16) decides the high nibble of the first bytes: indices 8..15 mod 16 are upper case / digits / punctuation
+const c40Mixed = `alpha|bravo|charlie|delta|echo|foxtrot|golf|hotel|ALPHA|BRAVO|CHARLIE|DELTA|ECHO|FOXTROT|GOLF|HOTEL|india|juliet|kilo|lima|mike|november|oscar|papa|123a|456b|789c|0ab1|_x_y|-dash|\+plus|#hash|quebec|romeo|sierra|tango|uniform|victor|whiskey|xray`
 
 type patGen struct {
 	r      *rng
@@ -206,7 +219,23 @@ func (g *patGen) template() string {
 	}
 	q := func() string { return r.pick([]string{"+", "*", "+", "{1,3}", "?", "+?", "*?"}) }
 	wild := func() string { return r.pick([]string{".*", ".+", ".*?", "[^\n]*", `\w*`, "(?s:.*)"}) }
-	switch r.intn(12) {
+	ovl := func() string { return r.pick([]string{"ana", "aa", "aba", "abab", "xx", "anan"}) }
+	asrt := func() string { return r.pick([]string{`\B`, `\b`, `$`, `(?m:$)`, `\z`}) }
+	switch r.intn(15) {
+	case 12: // literal alternation followed / preceded by an assertion
+		n := 2 + r.intn(4)
+		p := make([]string, n)
+		for i := range p {
+			p[i] = lit()
+		}
+		if r.bool() {
+			return "(" + strings.Join(p, "|") + ")" + asrt()
+		}
+		return r.pick([]string{`\B`, `\b`, `^`, `(?m:^)`}) + "(?:" + strings.Join(p, "|") + ")"
+	case 13: // class repetition + self-overlapping literal (reverse suffix / inner)
+		return cls() + q() + ovl() + r.pick([]string{"", "", cls() + "*"})
+	case 14:
+		return wild() + ovl()
 	case 0:
 		return wild() + lit()
 	case 1:
@@ -377,12 +406,23 @@ type hayGen struct {
 	r     *rng
 	re    *syntax.Regexp
 	alpha [][]byte
+	lits  [][]byte // literal substrings of the pattern (for overlapping-occurrence haystacks)
+}
+
+func collectLits(re *syntax.Regexp, acc *[][]byte) {
+	if re.Op == syntax.OpLiteral && len(re.Rune) >= 2 {
+		*acc = append(*acc, []byte(string(re.Rune)))
+	}
+	for _, s := range re.Sub {
+		collectLits(s, acc)
+	}
 }
 
 func newHayGen(r *rng, re *syntax.Regexp) *hayGen {
 	acc := map[rune]bool{}
 	alphabetOf(re, acc)
 	g := &hayGen{r: r, re: re}
+	collectLits(re, &g.lits)
 	n := 0
 	// deterministic order
 	keys := make([]int, 0, len(acc))
@@ -428,6 +468,29 @@ func (g *hayGen) noise(maxLen int) []byte {
 // pattern sees each shape.
 func (g *hayGen) next(i int) []byte {
 	r := g.r
+	if i%12 == 9 && len(g.lits) > 0 && r.bool() { // every other noise slot: overlapping literal occurrences
+		l := g.lits[r.intn(len(g.lits))]
+		var out []byte
+		out = append(out, g.noise(3)...)
+		n := 2 + r.intn(3)
+		for k := 0; k < n; k++ {
+			ov := 0
+			if len(l) > 1 {
+				ov = 1 + r.intn(len(l)-1)
+			}
+			if k == 0 {
+				out = append(out, l...)
+			} else {
+				out = append(out, l[len(l)-ov:]...) // may or may not re-create an occurrence
+				out = append(out, l[ov:]...)
+			}
+		}
+		if r.bool() {
+			out = append(out, g.noise(4)...)
+			out = append(out, sampleMatch(r, g.re, 0)...)
+		}
+		return out
+	}
 	switch i % 12 {
 	case 0:
 		if i == 0 {
@@ -483,6 +546,26 @@ func (g *hayGen) next(i int) []byte {
 		post := r.pick([]string{"", " ", "a", "_", "\n", "é", "1", "-"})
 		return concatBytes([]byte(pre), sampleMatch(r, g.re, 0), []byte(post))
 	}
+}
+
+// perLiteral: for patterns with many literal alternatives (multi-literal prefilters), one long
+// haystack per literal: >= 64 bytes of padding (past every vector block size), the literal, a
+// digit and a tail - so that every literal / every prefilter bucket is exercised.
+func (g *hayGen) perLiteral() [][]byte {
+	if len(g.lits) < 8 {
+		return nil
+	}
+	var out [][]byte
+	for i, l := range g.lits {
+		if i >= 64 {
+			break
+		}
+		pad := 64 + (i*7)%23
+		h := append([]byte(strings.Repeat(".", pad)+" "), l...)
+		h = append(h, []byte("7 ....")...)
+		out = append(out, h)
+	}
+	return out
 }
 
 func repeatNoise(g *hayGen, n int) []byte {
